@@ -1174,6 +1174,8 @@ def main(outfile):
     py2lean_init.main_init(os.path.join(os.path.dirname(outfile), 'TranslatedInit.lean'), sys.modules[__name__])
     import py2lean_persist                                       # separate module: persistence code paths (C06)
     py2lean_persist.main(os.path.join(os.path.dirname(outfile), 'TranslatedPersist2.lean'), sys.modules[__name__])
+    import py2lean_validate                                      # separate module: _Validation / Input / InputExp (C17)
+    py2lean_validate.main_validate(os.path.join(os.path.dirname(outfile), 'TranslatedValidate.lean'), write_if_changed)
 
 
 if __name__ == '__main__':
